@@ -16,13 +16,29 @@ import (
 // last argument spread from a list whose NAME is bound to another list afterwards (nothing is
 // stored into a list that was spread: the callee may hold the list itself).
 //
-// Nothing here asserts value semantics of a container: only ints and strings are read from slots.
+// Nothing here asserts value semantics of a container: only ints and strings are read from slots -
+// except in the slots of daRefSlots, whose own type is a slice or a map: there the argument is the
+// slice / map the slot held at the defer statement, the slot is ASSIGNED another slice / map afterwards
+// (never stored into through the old one), and the callee logs the one it received.
 
 type daSlot struct {
 	read  func() *N
 	store func(v *N) *N
 	str   bool
 	class string
+	// slots whose own type is a slice or a map (daRefSlots): fresh builds a new value of the slot's type,
+	// wrap builds one around a scalar expression (the variable of the loop the defer stands in)
+	ref   bool
+	fresh func() *N
+	wrap  func(z *N) *N
+}
+
+// newVal is an expression for a new value of the slot's type.
+func (g *G) daNewVal(s daSlot) *N {
+	if s.fresh != nil {
+		return s.fresh()
+	}
+	return g.daVal(s.str)
 }
 
 type daCallee struct {
@@ -59,7 +75,11 @@ func (g *G) daSlots(k int) ([]*N, [2]daSlot) {
 	}
 	byPos := func(i int) *N { return Int(int64(i)) }
 	contID := func() *N { return Id(cont) }
-	switch g.n(0, 9, "daslot") {
+	kind := g.n(0, 13, "daslot")
+	if kind >= 10 {
+		return g.daRefSlots(k, kind-10)
+	}
+	switch kind {
 	case 0:
 		pre = []*N{{K: "let", Ps: []string{cont}, Ns: []*N{{K: "list", Ns: []*N{g.val(), g.val()}}}}}
 		indexed("list_element", contID, byPos, false)
@@ -124,6 +144,99 @@ func (g *G) daSlots(k int) ([]*N, [2]daSlot) {
 				str:   str, class: "plain_variable",
 			}
 		}
+	}
+	return pre, slots
+}
+
+// daRefSlots: slots whose own static type is a slice or a map - elements of a slice of slices / of maps
+// and the slice and map fields of the Go struct hbox the host binds by pointer. A value read from such
+// a slot is a reference in Go too: assigning the SLOT another slice afterwards does not change the one
+// that was read (`defer f(a[0]); a[0] = []int64{2, 3}` hands f the slice a[0] held at the defer).
+func (g *G) daRefSlots(k, form int) ([]*N, [2]daSlot) {
+	var pre []*N
+	var slots [2]daSlot
+	cont := fmt.Sprintf("dc%d", k)
+	contID := func() *N { return Id(cont) }
+	ints := func() *N {
+		l := &N{K: "tlist", S: "int64"}
+		for i := g.n(1, 3, "dareflen"); i > 0; i-- {
+			l.Ns = append(l.Ns, g.val())
+		}
+		return l
+	}
+	intsOf := func(z *N) *N { return &N{K: "tlist", S: "int64", Ns: []*N{z, g.val()}} }
+	strs := func() *N {
+		l := &N{K: "tlist", S: "string"}
+		for i := g.n(1, 3, "dareflen"); i > 0; i-- {
+			l.Ns = append(l.Ns, g.daVal(true))
+		}
+		return l
+	}
+	strsOf := func(z *N) *N { return &N{K: "tlist", S: "string", Ns: []*N{z, g.daVal(true)}} }
+	imap := func() *N {
+		mp := &N{K: "tmap", S: "int64"}
+		for i, n := 0, g.n(1, 3, "dareflen"); i < n; i++ {
+			mp.Ns = append(mp.Ns, Str(fmt.Sprintf("m%d", i)), g.val())
+		}
+		return mp
+	}
+	imapOf := func(z *N) *N { return &N{K: "tmap", S: "int64", Ns: []*N{Str("z"), z, Str("m"), g.val()}} }
+	elems := func(class string, str bool, fresh func() *N, wrap func(*N) *N) {
+		for i := range slots {
+			i := i
+			slots[i] = daSlot{
+				read:  func() *N { return &N{K: "idx", Ns: []*N{contID(), Int(int64(i))}} },
+				store: func(v *N) *N { return &N{K: "letidx", Ns: []*N{contID(), Int(int64(i)), v}} },
+				str:   str, class: class, ref: true, fresh: fresh, wrap: wrap,
+			}
+		}
+	}
+	field := func(i int, name string, str bool, fresh func() *N, wrap func(*N) *N) {
+		slots[i] = daSlot{
+			read:  func() *N { return &N{K: "mem", S: name, Ns: []*N{Id("hbox")}} },
+			store: func(v *N) *N { return &N{K: "letmem", S: name, Ns: []*N{Id("hbox"), v}} },
+			str:   str, class: "struct_field_holding_slice_or_map", ref: true, fresh: fresh, wrap: wrap,
+		}
+	}
+	switch form {
+	case 0:
+		switch g.n(0, 2, "darefmade") {
+		case 0:
+			elems("made_slice_of_slices_element", false, ints, intsOf)
+			pre = []*N{{K: "let", Ps: []string{cont}, Ns: []*N{{K: "mkslice", S: "[]int64", I: int64(g.n(2, 3, "mklen"))}}}}
+		case 1:
+			elems("made_slice_of_slices_element", true, strs, strsOf)
+			pre = []*N{{K: "let", Ps: []string{cont}, Ns: []*N{{K: "mkslice", S: "[]string", I: int64(g.n(2, 3, "mklen"))}}}}
+		default:
+			elems("made_slice_of_maps_element", false, imap, imapOf)
+			pre = []*N{{K: "let", Ps: []string{cont}, Ns: []*N{{K: "mkslice", S: "map[string]int64", I: int64(g.n(2, 3, "mklen"))}}}}
+		}
+		pre = append(pre, slots[0].store(slots[0].fresh()), slots[1].store(slots[1].fresh()))
+	case 1:
+		if g.chance(50) {
+			elems("literal_slice_of_slices_element", false, ints, intsOf)
+			pre = []*N{{K: "let", Ps: []string{cont}, Ns: []*N{{K: "tlist", S: "[]int64", Ns: []*N{ints(), ints()}}}}}
+		} else {
+			elems("literal_slice_of_slices_element", true, strs, strsOf)
+			pre = []*N{{K: "let", Ps: []string{cont}, Ns: []*N{{K: "tlist", S: "[]string", Ns: []*N{strs(), strs()}}}}}
+		}
+	case 2:
+		elems("literal_slice_of_maps_element", false, imap, imapOf)
+		pre = []*N{{K: "let", Ps: []string{cont}, Ns: []*N{{K: "tlist", S: "map[string]int64", Ns: []*N{imap(), imap()}}}}}
+	default:
+		// two of the fields Row ([]int64), Items ([]string) and M (map[string]int64) of hbox
+		type fd struct {
+			name  string
+			str   bool
+			fresh func() *N
+			wrap  func(*N) *N
+		}
+		fds := []fd{{"Row", false, ints, intsOf}, {"Items", true, strs, strsOf}, {"M", false, imap, imapOf}}
+		a := g.n(0, 2, "dareffield")
+		b := (a + g.n(1, 2, "dareffield2")) % 3
+		field(0, fds[a].name, fds[a].str, fds[a].fresh, fds[a].wrap)
+		field(1, fds[b].name, fds[b].str, fds[b].fresh, fds[b].wrap)
+		pre = []*N{slots[0].store(slots[0].fresh()), slots[1].store(slots[1].fresh())}
 	}
 	return pre, slots
 }
@@ -203,10 +316,15 @@ func (g *G) deferArgsHeld(c *gctx) []*N {
 	fn := fmt.Sprintf("da%d", k)
 	pre, slots := g.daSlots(k)
 	g.feat("defer_args_slot_" + slots[0].class)
-	ints := !slots[0].str && !slots[1].str
+	ints := !slots[0].str && !slots[1].str && !slots[0].ref
 	spread := !g.chance(75)
 	cal := g.daCalleeOf(k, ints, spread)
 	g.feat("defer_args_callee_" + cal.class)
+	if slots[0].ref {
+		// the tag names the kind of slot as well: these failures are about slices and maps read from a slot
+		g.feat("defer_args_slot_holds_a_slice_or_a_map")
+		cal.tag.S = strings.Replace(cal.tag.S, "#", "+slot_holds_a_slice_or_a_map#", 1)
+	}
 
 	body := append([]*N{}, pre...)
 	body = append(body, cal.defs...)
@@ -215,7 +333,7 @@ func (g *G) deferArgsHeld(c *gctx) []*N {
 	// changes the slot an earlier argument was read from
 	bump := ""
 	// args builds the argument list of one deferred call
-	constOf := func(i int) *N { return g.daVal(slots[i%2].str && !cal.intsOnly) }
+	constOf := func(i int) *N { return g.daVal(slots[i%2].str && !slots[i%2].ref && !cal.intsOnly) }
 	args := func(n int, needSlotFrom int) []*N {
 		out := make([]*N, n)
 		hasSlot := false
@@ -289,8 +407,8 @@ func (g *G) deferArgsHeld(c *gctx) []*N {
 			bump = fmt.Sprintf("db%d", k)
 			cal.tag.S = strings.Replace(cal.tag.S, "#", "+slot_stored_by_a_later_argument#", 1)
 			body = append(body, &N{K: "expr", Ns: []*N{{K: "fn", S: bump, Ss: [][]*N{{
-				slots[0].store(g.daVal(slots[0].str)),
-				{K: "ret", Ns: []*N{g.daVal(slots[0].str && !cal.intsOnly)}},
+				slots[0].store(g.daNewVal(slots[0])),
+				{K: "ret", Ns: []*N{g.daVal(slots[0].str && !slots[0].ref && !cal.intsOnly)}},
 			}}}}})
 		}
 		mkDefer = func() *N {
@@ -306,7 +424,7 @@ func (g *G) deferArgsHeld(c *gctx) []*N {
 	storeAll := func() []*N {
 		var out []*N
 		for i := range slots {
-			out = append(out, slots[i].store(g.daVal(slots[i].str)))
+			out = append(out, slots[i].store(g.daNewVal(slots[i])))
 		}
 		if lst != "" {
 			// another list of the same length under the same name
@@ -326,8 +444,12 @@ func (g *G) deferArgsHeld(c *gctx) []*N {
 			items.Ns = append(items.Ns, g.daVal(slots[0].str))
 		}
 		z := fmt.Sprintf("dz%d", k)
+		var fromZ *N = Id(z)
+		if slots[0].wrap != nil {
+			fromZ = slots[0].wrap(Id(z))
+		}
 		body = append(body, &N{K: "forin", Ps: []string{z}, Ns: []*N{items}, Ss: [][]*N{{
-			slots[0].store(Id(z)),
+			slots[0].store(fromZ),
 			mkDefer(),
 		}}})
 		body = append(body, storeAll()...)
